@@ -94,7 +94,7 @@ theorem names_disjoint (hnd : (namesOf fs).Nodup) : ∀ n, n ∈ namesOf (fsA fs
 /-- **One element, two owners**: if the single server answers `r` for the selected fields on entity
     `e`, then `A` (asked for the helper id and its own fields) and `B` (asked for its own fields,
     with `$id` bound) answer shares `ra`, `rb` with `ra ++ rb` a permutation of `r`. -/
-theorem entity_shares (h : Fam c A B T q fs) (SA SB : Schema) (D : Data) (e : Entity) (r : List (String × J))
+theorem entity_sharesT (h : FamT c A B T q fs) (SA SB : Schema) (D : Data) (e : Entity) (r : List (String × J))
     (hnne : ∀ n ∈ namesOf fs, n ≠ "") (hine : e.id ≠ "")
     (hrefM : evalSels (envOf c.schema D []) (.ent e.type e.id e.fields) (leaves fs) [] = some r) :
     ∃ ra rb, (fsA fs).mapM (fval (envOf c.schema D []) (.ent e.type e.id e.fields)) = some ra
@@ -143,8 +143,22 @@ theorem entity_shares (h : Fam c A B T q fs) (SA SB : Schema) (D : Data) (e : En
     exact h.hne this
   exact ⟨ra, rb, hra', hrb', hperm, hownA, hvalB, fval_keys _ _ _ _ hra', fval_keys _ _ _ _ hrb', hne⟩
 
+/-- `entity_sharesT` for a member of the family at the `Query` root (only the hypotheses about the
+    type `T` are used: `FamT`) -/
+theorem entity_shares (h : Fam c A B T q fs) (SA SB : Schema) (D : Data) (e : Entity) (r : List (String × J))
+    (hnne : ∀ n ∈ namesOf fs, n ≠ "") (hine : e.id ≠ "")
+    (hrefM : evalSels (envOf c.schema D []) (.ent e.type e.id e.fields) (leaves fs) [] = some r) :
+    ∃ ra rb, (fsA fs).mapM (fval (envOf c.schema D []) (.ent e.type e.id e.fields)) = some ra
+      ∧ (fsB fs).mapM (fval (envOf c.schema D []) (.ent e.type e.id e.fields)) = some rb
+      ∧ (ra ++ rb).Perm r
+      ∧ evalSels (envOf SA D []) (.ent e.type e.id e.fields) (idField :: leaves (fsA fs)) []
+          = some (("id", .str e.id) :: ra)
+      ∧ evalSels (envOf SB D [("id", .str e.id)]) (.ent e.type e.id e.fields) (leaves (fsB fs)) [] = some rb
+      ∧ J.keys ra = namesOf (fsA fs) ∧ J.keys rb = namesOf (fsB fs) ∧ ra ++ rb ≠ [] :=
+  entity_sharesT h.toFamT SA SB D e r hnne hine hrefM
+
 /-- side conditions on the keys of the two shares of one element -/
-theorem shares_good (h : Fam c A B T q fs) (i : String) (ra rb : List (String × J))
+theorem shares_goodT (h : FamT c A B T q fs) (i : String) (ra rb : List (String × J))
     (hine : i ≠ "")
     (hkA : J.keys ra = namesOf (fsA fs)) (hkB : J.keys rb = namesOf (fsB fs)) (hne : ra ++ rb ≠ []) :
     (i ≠ "" ∧ (J.keys rb).Nodup ∧ ∀ k ∈ J.keys rb, k ∉ J.keys (("id", J.str i) :: ra))
@@ -172,6 +186,13 @@ theorem shares_good (h : Fam c A B T q fs) (i : String) (ra rb : List (String ×
     have := h.hfb "__typename" (hkeysAB _ hk)
     simp [isBuiltinName] at this
   exact ⟨⟨hine, hbnd, hdisj⟩, hid, htn, hne⟩
+
+theorem shares_good (h : Fam c A B T q fs) (i : String) (ra rb : List (String × J))
+    (hine : i ≠ "")
+    (hkA : J.keys ra = namesOf (fsA fs)) (hkB : J.keys rb = namesOf (fsB fs)) (hne : ra ++ rb ≠ []) :
+    (i ≠ "" ∧ (J.keys rb).Nodup ∧ ∀ k ∈ J.keys rb, k ∉ J.keys (("id", J.str i) :: ra))
+      ∧ GoodElem (ra ++ rb) :=
+  shares_goodT h.toFamT i ra rb hine hkA hkB hne
 
 /-- the share of the single-server answer for the fields `sub` on the entity with id `i` -/
 def shareOf (S : Schema) (D : Data) (sub : List FieldSpec) (i : String) : List (String × J) :=
